@@ -140,6 +140,7 @@ var allProtos = []string{"resp", "telnet", "native", "http"}
 func TestC16_Seg2Way(t *testing.T) {
 	c := ev.New("C16", "seg-2way", "exploration")
 	t.Cleanup(c.Flush)
+	t.Cleanup(func() { drainExcluded(c) })
 	c.Rule("streams of 1-40 commands (keyspace grammar, PING/ECHO, binary args) encoded as RESP, telnet lines (quoted where needed, some bare-LF), native $n lines, HTTP GET/POST and WebSocket upgrades, optional trailing OPTIONS, at most 8 KB; the uncut parse by PipelineReader.ReadMessages must equal the generator's ground truth and EVERY 2-way cut of the stream must give identical messages (args, conn/output type, auth, accept-encoding), error and written bytes. Non-trivial: the cut falls strictly inside a command; distinct by (protocol, region of the command, protocol of the next element, offset from the command start capped at 48, command name).")
 	c.Exhaustive(true)
 	o := streamOpts{maxCmds: 40, http: true, options: true, binary: true, protos: allProtos, maxBytes: 8192}
@@ -193,6 +194,7 @@ func TestC16_Seg2Way(t *testing.T) {
 func TestC16_SegRandom(t *testing.T) {
 	c := ev.New("C16", "seg-random", "exploration")
 	t.Cleanup(c.Flush)
+	t.Cleanup(func() { drainExcluded(c) })
 	c.Rule("streams of 1-200 commands in all five encodings with STRING values of 60-200 KB (also exactly around 65535 and 2*65535 bytes); ground truth for the uncut parse, then random k-way cuts (k<=50, a third of the cut points within 3 bytes of a command boundary or of a multiple of 65535), chunk sizes straddling 65535, and byte-at-a-time for streams up to 6 KB. Non-trivial: at least one cut strictly inside a command; distinct by (protocols, number of cuts, regions hit, has-big-value, byte-at-a-time).")
 	bigKB := ev.Pick(200, 200)
 	ev.Rapid("seg-random", ev.Pick(400, 4000))
